@@ -23,11 +23,17 @@
 (*               reach the tool handler unaltered, and every Mcp-Param-*      *)
 (*               header the client sends carries its own parameter's value -  *)
 (*               whenever the client is Informed: the last tools/list answer  *)
-(*               it obtained for the tool carries the definition the server   *)
-(*               enforces now (the SDK client learns schemas from ListTools   *)
-(*               only; without a definition it sends no Mcp-Param-* header,   *)
-(*               which is the documented behaviour of lookupTool, not a       *)
-(*               disagreement about a call "valid under the tool's schema")   *)
+(*               it holds for the tool carries the definition the server      *)
+(*               enforces now, or it has handled the list_changed notification *)
+(*               for the server's present tool set and has listed the tools   *)
+(*               again afterwards (the SDK client learns schemas from         *)
+(*               ListTools only; without a definition it sends no Mcp-Param-* *)
+(*               header, which is the documented behaviour of lookupTool, not *)
+(*               a disagreement about a call "valid under the tool's schema") *)
+(*  The listing is not atomic: ListSent / ListAnswered / ListDelivered per    *)
+(*  page, with ToolChanged and NotifiedDelivered free to fall in between; the *)
+(*  cache's generation counter (gen / putIfCurrent / invalidate) is part of   *)
+(*  the transcribed client state.                                             *)
 EXTENDS Integers, Sequences, FiniteSets, TLC
 
 Depths == 1..8
@@ -112,72 +118,154 @@ SiblingsAccepted(c) == \A i \in Params(c) \ {0} : BoundTo(c, i) = i
 \*   sub   the client has a ToolListChangedHandler: it keeps a subscriptions/listen stream and the server's
 \*         notifications/tools/list_changed reach it
 \*   steps what happens, in order, before the call:
-\*         "list"   the application lists the tools (every page: ClientSession.Tools)
-\*         "wait"   more than the ttl passes (nothing else happens)
-\*         "change" the server replaces the tool: every x-mcp-header annotation of it gets another header name
-\*         "shrink" the server removes the tools that filled the first page: the tool is on the first page from now
-\*                  on and the later page is gone (page = "later" only, at most once)
+\*         "list"    the application lists the tools (every page: ClientSession.Tools), nothing else happens meanwhile
+\*         "wait"    more than the ttl passes (nothing else happens)
+\*         "change"  ToolChanged: the server replaces the tool: every x-mcp-header annotation of it gets another header
+\*                   name; a subscribed client's notifications/tools/list_changed goes out (not yet delivered)
+\*         "shrink"  the server removes the tools that filled the first page: the tool is on the first page from now
+\*                   on and the later page is gone (page = "later" only, at most once); notification as for "change"
+\*         "notify"  NotifiedDelivered: every list_changed notification on its way reaches the client and is handled
+\*                   (callToolChangedHandler -> methodCache.invalidate, once per notification)
+\*         "send"    ListSent: the application starts listing the tools (ClientSession.Tools); ListTools reads the
+\*                   cache generation, looks the page up (methodCache.get) and - on a miss - its tools/list request
+\*                   leaves the client.  Pages served from the cache cost no step
+\*         "answer"  ListAnswered: the server answers the request in flight from its present tool set
+\*         "deliver" ListDelivered: the answer reaches the client (methodCache.putIfCurrent with the generation read
+\*                   when the request was sent); the listing goes on with the next page (as in "send") or ends
+\*         ("list" = "send" and then "answer", "deliver" until the listing ends, with nothing in between)
 Ttls == {"none", "pos"}
 Pages == {"first", "later"}
-StepKinds == {"list", "wait", "change", "shrink"}
-WellFormed(h) == LET sh == {i \in DOMAIN h.steps : h.steps[i] = "shrink"}
-                 IN Cardinality(sh) <= (IF h.page = "later" THEN 1 ELSE 0)
-SeqsUpTo(S, n) == UNION {[1..m -> S] : m \in 0..n}
-Hists(n) == {h \in [ttl : Ttls, page : Pages, sub : BOOLEAN, steps : SeqsUpTo(StepKinds, n)] : WellFormed(h)}
+StepKinds == {"list", "wait", "change", "shrink", "notify", "send", "answer", "deliver"}
+EnvSteps == {"wait", "change", "shrink", "notify"}
 
-\* The client's cache of tools/list answers (methodCache[*ListToolsResult]) holds one entry per cursor.  Two
-\* cursors matter: "p1" (no cursor: the first page) and "pN" (the cursor of the later page of the original
-\* layout).  An entry records which revision of the tool the page listed (NoVer: the page does not list it),
-\* whether it is still servable (ttlMs > 0 and younger than ttlMs) and when it was fetched.
+\* What-if switch (overridden by HeaderMirrorHist_coldnobump.cfg only): methodCache.invalidate leaves the generation
+\* alone when nothing is cached
+ColdNoBump == FALSE
+
+\* The client's cache of tools/list answers (methodCache[*ListToolsResult]) holds one entry per cursor and a
+\* generation counter.  Two cursors matter: "p1" (no cursor: the first page) and "pN" (the cursor of the later page
+\* of the original layout).  An entry records which revision of the tool the page listed (NoVer: the page does not
+\* list it), whether the page named a next cursor (more: the cursor of pN), whether it is still servable (ttlMs > 0
+\* and younger than ttlMs) and when it was stored.
 Keys == {"p1", "pN"}
 NoVer == -1
-NoEntry == [present |-> FALSE, ver |-> NoVer, fresh |-> FALSE, at |-> 0]
+NoEntry == [present |-> FALSE, ver |-> NoVer, fresh |-> FALSE, at |-> 0, more |-> FALSE]
 EmptyCache == [k \in Keys |-> NoEntry]
-St0 == [sv |-> 0, shifted |-> FALSE, clock |-> 0, cache |-> EmptyCache]   \* sv: revision of the tool on the server
+\* The listing in progress (at most one): ph "idle" / "sent" (request for page key on its way, gen = the generation
+\* ListTools read before) / "ans" (answered with ver / more, not yet delivered); clean: the listing was started after
+\* the client had handled the list_changed notification for the server's present tool set (see Informed)
+Idle == [ph |-> "idle", key |-> "p1", gen |-> 0, ver |-> NoVer, more |-> FALSE, clean |-> FALSE]
+Sent(k, g, cl) == [ph |-> "sent", key |-> k, gen |-> g, ver |-> NoVer, more |-> FALSE, clean |-> cl]
+\* sv: revision of the tool on the server; shifted: the first-page fillers are gone; gen: methodCache.generation;
+\* pend: list_changed notifications sent and not yet delivered; told, relisted, npass: history variables (below)
+St0 == [sv |-> 0, shifted |-> FALSE, clock |-> 0, cache |-> EmptyCache, gen |-> 0, pend |-> 0, fly |-> Idle,
+        told |-> FALSE, relisted |-> FALSE, npass |-> 0]
 
 OnLater(h, st) == h.page = "later" /\ ~st.shifted
-HomeKey(h, st) == IF OnLater(h, st) THEN "pN" ELSE "p1"
-ServerKeys(h, st) == IF OnLater(h, st) THEN {"p1", "pN"} ELSE {"p1"}
-\* methodCache.get serves an entry only while ttlMs > 0 and its age is below ttlMs (and drops it otherwise)
+\* methodCache.get serves an entry only while ttlMs > 0 and its age is below ttlMs - and deletes it otherwise
 Servable(e) == e.present /\ e.fresh
-\* ListTools page after page, all fetched at the same instant: every page of the server's current layout is
-\* stored under its cursor (putIfCurrent); entries under cursors that no longer exist stay where they are
-Fetched(h, st) == [k \in Keys |-> IF k \in ServerKeys(h, st)
-                                  THEN [present |-> TRUE, ver |-> IF k = HomeKey(h, st) THEN st.sv ELSE NoVer,
-                                        fresh |-> h.ttl = "pos", at |-> st.clock + 1]
-                                  ELSE st.cache[k]]
-\* notifications/tools/list_changed -> callToolChangedHandler -> methodCache.invalidate
-Notified(h, c) == IF h.sub THEN EmptyCache ELSE c
+Drop(st, k) == [st EXCEPT !.cache[k] = NoEntry]
+\* the listing ends: ClientSession.Tools has returned every page to the application
+Done(st, cl) == [st EXCEPT !.fly = Idle, !.relisted = @ \/ cl, !.npass = @ + 1]
+\* ListTools(cursor of pN) / ListTools(no cursor): generation, then cache, then the wire
+AskN(st, cl) == IF Servable(st.cache["pN"]) THEN Done(st, cl)
+                ELSE [Drop(st, "pN") EXCEPT !.fly = Sent("pN", st.gen, cl)]
+Ask1(st, cl) == IF Servable(st.cache["p1"]) THEN (IF st.cache["p1"].more THEN AskN(st, cl) ELSE Done(st, cl))
+                ELSE [Drop(st, "p1") EXCEPT !.fly = Sent("p1", st.gen, cl)]
+\* the server answers from its present tool set (paginateList: the cursor of pN means "after the last filler",
+\* whether the fillers are still there or not)
+Answer(h, st) == LET k == st.fly.key IN
+  [st EXCEPT !.fly.ph = "ans",
+             !.fly.ver = IF k = "pN" \/ ~OnLater(h, st) THEN st.sv ELSE NoVer,
+             !.fly.more = (k = "p1" /\ OnLater(h, st))]
+\* putIfCurrent: stored only if the cache has not been invalidated since the request was sent; either way ListTools
+\* returns the answer and the listing goes on
+Deliver(h, st) ==
+  LET f == st.fly
+      st1 == IF st.gen = f.gen
+             THEN [st EXCEPT !.cache[f.key] = [present |-> TRUE, ver |-> f.ver, fresh |-> h.ttl = "pos",
+                                               at |-> st.clock + 1, more |-> f.more],
+                             !.clock = @ + 1]
+             ELSE st
+  IN IF f.more THEN AskN(st1, f.clean) ELSE Done(st1, f.clean)
+Round(h, st) == IF st.fly.ph = "idle" THEN st ELSE Deliver(h, Answer(h, st))
+ListAll(h, st) == Round(h, Round(h, Ask1(st, st.told)))
+\* notifications/tools/list_changed -> callToolChangedHandler -> methodCache.invalidate, once per notification
+Cold(st) == \A k \in Keys : ~st.cache[k].present
+Invalidate(st) == [st EXCEPT !.cache = EmptyCache,
+                             !.gen = @ + (IF ColdNoBump THEN (IF Cold(st) THEN 0 ELSE 1) ELSE st.pend)]
+
+Enabled(h, st) ==
+  {"wait", "change"}
+  \cup (IF st.fly.ph = "idle" THEN {"list", "send"} ELSE {})
+  \cup (IF st.fly.ph = "sent" THEN {"answer"} ELSE {})
+  \cup (IF st.fly.ph = "ans" THEN {"deliver"} ELSE {})
+  \cup (IF st.pend > 0 THEN {"notify"} ELSE {})
+  \cup (IF OnLater(h, st) THEN {"shrink"} ELSE {})
 Apply(h, st, s) ==
-  CASE s = "list" -> IF Servable(st.cache["p1"]) THEN st   \* answered from the cache, page after page (same age)
-                     ELSE [st EXCEPT !.cache = Fetched(h, st), !.clock = @ + 1]
+  CASE s = "list" -> ListAll(h, st)
+    [] s = "send" -> Ask1(st, st.told)
+    [] s = "answer" -> Answer(h, st)
+    [] s = "deliver" -> Deliver(h, st)
     [] s = "wait" -> [st EXCEPT !.cache = [k \in Keys |-> [st.cache[k] EXCEPT !.fresh = FALSE]]]
-    [] s = "change" -> [st EXCEPT !.sv = @ + 1, !.cache = Notified(h, @)]
-    [] s = "shrink" -> IF st.shifted \/ h.page # "later" THEN st
-                       ELSE [st EXCEPT !.shifted = TRUE, !.cache = Notified(h, @)]
+    [] s = "change" -> [st EXCEPT !.sv = @ + 1, !.told = FALSE, !.pend = IF h.sub THEN @ + 1 ELSE @]
+    [] s = "shrink" -> [st EXCEPT !.shifted = TRUE, !.told = FALSE, !.pend = IF h.sub THEN @ + 1 ELSE @]
+    [] s = "notify" -> [Invalidate(st) EXCEPT !.pend = 0, !.told = TRUE, !.relisted = FALSE]
+
+\* every history of at most n steps in which each step is enabled when it is taken, with the state it leads to
+Cfgs == [ttl : Ttls, page : Pages, sub : BOOLEAN]
+WithSteps(g, steps) == [ttl |-> g.ttl, page |-> g.page, sub |-> g.sub, steps |-> steps]
+RECURSIVE Grow(_, _, _)
+Grow(g, front, n) ==
+  IF n = 0 THEN front
+  ELSE front \cup Grow(g, UNION {{<<Append(p[1], s), Apply(g, p[2], s)>> : s \in Enabled(g, p[2])} : p \in front}, n - 1)
+Runs(g, n) == Grow(g, {<<(<< >>), St0>>}, n)
+Hists(n) == UNION {{WithSteps(g, p[1]) : p \in Runs(g, n)} : g \in Cfgs}
 RECURSIVE RunFrom(_, _, _)
 RunFrom(h, st, i) == IF i > Len(h.steps) THEN st ELSE RunFrom(h, Apply(h, st, h.steps[i]), i + 1)
 Final(h) == RunFrom(h, St0, 1)
+RECURSIVE EnabledFrom(_, _, _)
+EnabledFrom(h, st, i) == i > Len(h.steps) \/ (h.steps[i] \in Enabled(h, st) /\ EnabledFrom(h, Apply(h, st, h.steps[i]), i + 1))
+WellFormed(h) == EnabledFrom(h, St0, 1)
+\* something falls inside a listing (between a request and its answer, an answer and its delivery, or two pages), or
+\* the call itself does
+Racy(h) == LET n == Len(h.steps) IN
+  \/ \E i \in 2..n : h.steps[i] \in {"answer", "deliver"} /\ h.steps[i - 1] \in EnvSteps
+  \/ (n > 0 /\ Final(h).fly.ph # "idle")
 
 \* the cached pages that list the tool
-Holding(h) == LET st == Final(h) IN {k \in Keys : st.cache[k].present /\ st.cache[k].ver # NoVer}
+HoldingSt(st) == {k \in Keys : st.cache[k].present /\ st.cache[k].ver # NoVer}
 KindOf(st, k) == IF st.cache[k].ver = st.sv THEN "current" ELSE "stale"
 \* ClientSession.lookupTool ranges over the cached pages (a Go map: any order) and takes the first one that lists
 \* the tool, servable or not; CallTool hands that definition to the transport (toolContextKey) - or nothing
-DefKinds(h) == LET st == Final(h) IN IF Holding(h) = {} THEN {"none"} ELSE {KindOf(st, k) : k \in Holding(h)}
+DefKindsSt(st) == IF HoldingSt(st) = {} THEN {"none"} ELSE {KindOf(st, k) : k \in HoldingSt(st)}
 \* the page through which the client saw the tool last
-LastKey(h) == LET st == Final(h) IN CHOOSE k \in Holding(h) : \A j \in Holding(h) : st.cache[j].at <= st.cache[k].at
-\* Informed: the client has listed the tool, has not been told since that the list changed, and the last
-\* tools/list answer it obtained for the tool carries the definition the server enforces now
-Informed(h) == Holding(h) # {} /\ KindOf(Final(h), LastKey(h)) = "current"
-\* where that definition sits (names the abstract failing case in signatures)
+LastKeySt(st) == CHOOSE k \in HoldingSt(st) : \A j \in HoldingSt(st) : st.cache[j].at <= st.cache[k].at
+\* Informed: when must the client's next call agree with the server?  Two sufficient conditions.
+\* (by answer) the client has listed the tool, has not been told since that the list changed, and the last
+\*   tools/list answer it holds for the tool carries the definition the server enforces now
+ByAnswerSt(st) == HoldingSt(st) # {} /\ KindOf(st, LastKeySt(st)) = "current"
+\* (by notice) the client has handled the list_changed notification for the server's present tool set (told: a
+\*   "notify" step and no "change" / "shrink" since - every notification is sent after the change it announces), the
+\*   application has then listed the tools again (relisted: a listing started after that "notify" has returned every
+\*   page) and is not listing at the moment.  Stated on the history alone: whatever the cache did with the answers
+\*   that were in flight when the notification arrived, a client that was told and asked again afterwards must know
+ByNoticeSt(st) == st.told /\ st.relisted /\ st.fly.ph = "idle"
+InformedSt(st) == ByAnswerSt(st) \/ ByNoticeSt(st)
+Holding(h) == HoldingSt(Final(h))
+DefKinds(h) == DefKindsSt(Final(h))
+ByAnswer(h) == ByAnswerSt(Final(h))
+ByNotice(h) == ByNoticeSt(Final(h))
+Informed(h) == InformedSt(Final(h))
+\* where the definition the client saw last sits (names the abstract failing case in signatures)
 Source(h) == LET st == Final(h) IN
-  IF Holding(h) = {} THEN [page |-> "none", age |-> "none", rev |-> "none", orphan |-> FALSE]
-  ELSE LET k == LastKey(h) IN
+  IF HoldingSt(st) = {} THEN [page |-> "none", age |-> "none", rev |-> "none", orphan |-> FALSE, told |-> ByNoticeSt(st)]
+  ELSE LET k == LastKeySt(st) IN
        [page |-> IF k = "pN" THEN "later" ELSE IF h.page = "later" THEN "moved" ELSE "first",
         age |-> IF h.ttl = "none" THEN "nottl" ELSE IF st.cache[k].fresh THEN "fresh" ELSE "expired",
         rev |-> IF st.cache[k].ver > 0 THEN "changed" ELSE "orig",
-        orphan |-> Cardinality(Holding(h)) > 1]
+        orphan |-> Cardinality(HoldingSt(st)) > 1,
+        told |-> ByNoticeSt(st)]
 
 \* The code-shaped outcome of a real client call made with definition kind d ("none" / "current" / "stale")
 \* via: which definition the request shows (Mcp-Param-* under the current names / outdated names / none at all)
@@ -211,16 +299,29 @@ B64AlwaysAccepted == \A c \in RowSet : Primitive(c) => ServerAccepts(c, "b64")
 \* (2) the client's raw/b64 decision is exactly the set of classes that do not survive the hop unencoded
 EncodeIffNeeded == \A c \in RowSet : (Primitive(c) /\ c.val # "empty") =>
                       (ClientHdr(c) = "b64" <=> (~ServerAccepts(c, "raw") \/ NonAscii(c)))
-\* (3) history machine, for every history of at most n steps
+\* (3) history machine: facts about a history h and the state st it leads to (checked for every history of at most n
+\* steps by HeaderMirror as assumptions and, deeper, by HeaderMirrorHist as invariants)
 Has(h, s) == \E i \in DOMAIN h.steps : h.steps[i] = s
-\* once listed, with nothing changed on the server, the client holds the current definition and only that -
-\* however old the answer is, with or without ttl, on whichever page
-ListedStaysKnown(n) == \A h \in Hists(n) : (Has(h, "list") /\ ~Has(h, "change") /\ ~Has(h, "shrink")) =>
-                          (Informed(h) /\ DefKinds(h) = {"current"})
-NeverListedKnowsNothing(n) == \A h \in Hists(n) : ~Has(h, "list") => (~Informed(h) /\ DefKinds(h) = {"none"})
-InformedHoldsCurrent(n) == \A h \in Hists(n) : Informed(h) => "current" \in DefKinds(h)
-\* an informed client can pick an outdated definition only from a page whose cursor no longer exists
-OutdatedOnlyFromOrphans(n) == \A h \in Hists(n) : (Informed(h) /\ DefKinds(h) # {"current"}) =>
-                                 (Has(h, "shrink") /\ Has(h, "change") /\ ~h.sub /\ Source(h).orphan)
-NotifiedNeverOutdated(n) == \A h \in Hists(n) : h.sub => "stale" \notin DefKinds(h)
+\* once listed, with nothing changed on the server and no listing in progress, the client holds the current
+\* definition and only that - however old the answer is, with or without ttl, on whichever page
+ListedStaysKnown(h, st) == (st.npass > 0 /\ st.fly.ph = "idle" /\ ~Has(h, "change") /\ ~Has(h, "shrink")) =>
+                              (ByAnswerSt(st) /\ DefKindsSt(st) = {"current"})
+NeverListedKnowsNothing(h, st) == (~Has(h, "list") /\ ~Has(h, "deliver")) => (~InformedSt(st) /\ DefKindsSt(st) = {"none"})
+InformedHoldsCurrent(h, st) == InformedSt(st) => "current" \in DefKindsSt(st)
+\* an informed client can pick an outdated definition only from a page whose cursor no longer exists - and only
+\* while no notification has told it so
+OutdatedOnlyFromOrphans(h, st) == (InformedSt(st) /\ DefKindsSt(st) # {"current"}) =>
+                                     (Has(h, "shrink") /\ Has(h, "change") /\ (~h.sub \/ st.pend > 0) /\ Cardinality(HoldingSt(st)) > 1)
+\* a subscribed client that has handled every notification sent so far holds no outdated definition - whatever was
+\* in flight when the notifications arrived
+NotifiedNeverOutdated(h, st) == (h.sub /\ st.pend = 0) => "stale" \notin DefKindsSt(st)
+\* told and listed again afterwards: the client holds the current definition and only that (the history-only
+\* condition of Informed never asks for more than the cache delivers)
+NoticeSuffices(h, st) == ByNoticeSt(st) => (ByAnswerSt(st) /\ DefKindsSt(st) = {"current"})
+\* an answer requested before an invalidation is never stored after it
+StaleNeverStoredAfterNotice(h, st) == (st.told /\ h.sub) => \A k \in Keys : st.cache[k].present => st.cache[k].ver \in {NoVer, st.sv}
+HistFacts(h, st) == /\ ListedStaysKnown(h, st) /\ NeverListedKnowsNothing(h, st) /\ InformedHoldsCurrent(h, st)
+                    /\ OutdatedOnlyFromOrphans(h, st) /\ NotifiedNeverOutdated(h, st) /\ NoticeSuffices(h, st)
+                    /\ StaleNeverStoredAfterNotice(h, st)
+HistFactsUpTo(n) == \A g \in Cfgs : \A p \in Runs(g, n) : HistFacts(WithSteps(g, p[1]), p[2])
 =============================================================================
